@@ -427,6 +427,13 @@ func run(c *evid.Case) {
 			}
 			if d := regsim.Diff(ref.keys, r.keys); len(d) > 0 {
 				kind, sig := classifyKeys(d, ref, r, k, mode, blocks)
+				if kind == "orphan-slashing-protection-record" {
+					// Only slashing-protection records of a share that no longer exists differ. The statement compares
+					// "registry state, nonces and stored key shares"; protection records are none of these, so this is
+					// counted as an observation, not reported (an earlier version of this oracle demanded more than stated).
+					c.Count("observed_leftover_protection_records_only (not demanded by the statement) "+sig, 1)
+					continue
+				}
 				viol(kind, sig, head+"final key-manager records differ from the uninterrupted run (- uninterrupted, + recovered):\n"+strings.Join(d, "\n")+
 					fmt.Sprintf("\naccounts uninterrupted=%v recovered=%v wallet-index recovered=%v", shorts(ref.keyState.Accounts), shorts(r.keyState.Accounts), shorts(r.keyState.WalletIndex)))
 			}
